@@ -46,6 +46,168 @@ type admitCase struct {
 	Packets   [][]byte
 	ConnOf    []int // tcp: connection carrying each packet (0..2); ignored for udp
 	Seg       []int // tcp (in-memory): the server's k-th Read on a connection returns at most Seg[k mod len] octets - the client's stream arrives chopped at these offsets, also between the two length octets
+	// in-memory transports only (loopback sockets keep ReadTimeout = IdleTimeout = 1 h and ignore all of this):
+	Timeouts timeoutSpec // Server.ReadTimeout / WriteTimeout / IdleTimeout
+	Pauses   []pauseSpec // the client lets time pass before it sends packet Before (tcp: on that packet's connection), on the transport's virtual clock
+	Handler  string      // "" = a plain HandlerFunc; "mux" = a ServeMux of its own with the handler registered for example.org.; "default-mux" = Server.Handler nil, the handler registered with dns.Handle
+	NoAddr   []int       // udp (in-memory): packets whose sender has no address - ReadFrom returns a nil net.Addr, as a unixgram socket does for an unbound client
+}
+
+// timeoutSpec: milliseconds; 0 leaves the Server field at its zero value, for which server.go
+// documents 2 s (ReadTimeout, WriteTimeout) and 8 s (IdleTimeout nil).
+type timeoutSpec struct{ ReadMs, WriteMs, IdleMs int64 }
+
+type pauseSpec struct {
+	Before int   // index into Packets
+	Ms     int64 // length of the pause
+}
+
+func msDur(ms int64) time.Duration { return time.Duration(ms) * time.Millisecond }
+
+func (ts timeoutSpec) read() time.Duration {
+	if ts.ReadMs != 0 {
+		return msDur(ts.ReadMs)
+	}
+	return 2 * time.Second
+}
+func (ts timeoutSpec) write() time.Duration {
+	if ts.WriteMs != 0 {
+		return msDur(ts.WriteMs)
+	}
+	return 2 * time.Second
+}
+func (ts timeoutSpec) idle() time.Duration {
+	if ts.IdleMs != 0 {
+		return msDur(ts.IdleMs)
+	}
+	return 8 * time.Second
+}
+
+func (ts timeoutSpec) apply(srv *dns.Server) {
+	srv.ReadTimeout, srv.WriteTimeout = msDur(ts.ReadMs), msDur(ts.WriteMs)
+	if ts.IdleMs != 0 {
+		d := msDur(ts.IdleMs)
+		srv.IdleTimeout = func() time.Duration { return d }
+	}
+}
+
+// maxPause: how long a client may stay silent in front of a read with the given timeout and still
+// count as "within the timeout" for this check: half of it, and nothing when the timeout is below
+// 2 s (the distance between the pause and the deadline - at least a second - is the only quantity
+// that is compared with wall-clock scheduling delays, see vclock).
+func maxPause(limit time.Duration) time.Duration {
+	if limit < 2*time.Second {
+		return 0
+	}
+	return limit / 2
+}
+
+// pauseBefore: total pause in front of packet i.
+func (c admitCase) pauseBefore(i int) time.Duration {
+	var d time.Duration
+	for _, p := range c.Pauses {
+		if p.Before == i {
+			d += msDur(p.Ms)
+		}
+	}
+	return d
+}
+
+func (c admitCase) noAddr(i int) bool {
+	for _, k := range c.NoAddr {
+		if k == i {
+			return true
+		}
+	}
+	return false
+}
+
+// firstOnConn: packet i is the first one on its stream connection.
+func (c admitCase) firstOnConn(i int) bool {
+	for j := 0; j < i; j++ {
+		if c.connOf(j) == c.connOf(i) {
+			return false
+		}
+	}
+	return true
+}
+
+func msClass(ms int64) string {
+	if ms == 0 {
+		return "zero-value"
+	}
+	return msDur(ms).String()
+}
+
+// timeClasses: the configuration and time dimension of a case on an in-memory transport.
+func (c admitCase) timeClasses(exp []expect) []string {
+	ts := c.Timeouts
+	cl := []string{"read-timeout=" + msClass(ts.ReadMs), "write-timeout=" + msClass(ts.WriteMs), "idle-timeout=" + msClass(ts.IdleMs)}
+	if len(c.NoAddr) > 0 {
+		cl = append(cl, "sender-without-address")
+	}
+	if len(c.Pauses) == 0 {
+		return append(cl, "pauses=0")
+	}
+	cl = append(cl, fmt.Sprintf("pauses=%d", min(len(c.Pauses), 3)))
+	// does a reply fall due after the client has been silent, since the connection (the socket) came
+	// to life, for longer than the write timeout?
+	silent := map[int]time.Duration{}
+	late := false
+	for i, e := range exp {
+		k := 0
+		if c.Transport == "tcp" {
+			k = c.connOf(i)
+		}
+		silent[k] += c.pauseBefore(i)
+		if silent[k] > ts.write() && e.replies > 0 && !c.noAddr(i) {
+			late = true
+		}
+	}
+	if late {
+		return append(cl, "reply-due-after-silence>write-timeout")
+	}
+	return append(cl, "silence<=write-timeout")
+}
+
+func (c admitCase) inMemory() bool { return c.Transport == "udp" || c.Transport == "tcp" }
+
+// wellFormed: the parts of the case the oracle's model does not cover are refused, not guessed.
+func (c admitCase) wellFormed() bool {
+	switch c.Handler {
+	case "", "mux", "default-mux":
+	default:
+		return false
+	}
+	if !c.inMemory() {
+		return true
+	}
+	for _, p := range c.Pauses {
+		if p.Before < 0 || p.Before >= len(c.Packets) || p.Ms < 0 || p.Ms > 1<<40 {
+			return false
+		}
+	}
+	for _, k := range c.NoAddr {
+		if k < 0 || k >= len(c.Packets) || c.Transport != "udp" {
+			return false
+		}
+	}
+	if c.Timeouts.ReadMs < 0 || c.Timeouts.WriteMs < 0 || c.Timeouts.IdleMs < 0 {
+		return false
+	}
+	if c.Transport == "tcp" {
+		// a pause that comes near the read / idle timeout in force may legitimately end the connection
+		for i := range c.Packets {
+			limit := c.Timeouts.idle()
+			if c.firstOnConn(i) {
+				limit = c.Timeouts.read()
+			}
+			if c.pauseBefore(i) > maxPause(limit) {
+				return false
+			}
+		}
+	}
+	return true
 }
 
 type hdr struct{ id, bits, qd, an, ns, ar uint16 }
@@ -104,24 +266,50 @@ type observer struct {
 	handled []handledCall
 	invalid [][]byte
 	policy  []hdr
+	panics  []string // panics of ResponseWriter methods called by the handler
+	cleanup func()
 }
+
+// remotePort asks the ResponseWriter for the client's address the way handlers do (logging, access
+// control); a panic inside the library's method is caught here, in the handler's own frame, so that
+// it is reported instead of ending the process.
+func remotePort(w dns.ResponseWriter) (port int, panicked string) {
+	defer func() {
+		if r := recover(); r != nil {
+			port, panicked = -2, fmt.Sprint(r)
+		}
+	}()
+	return portOf(w.RemoteAddr()), ""
+}
+
+const muxZone = "example.org."
 
 var markerTXT = &dns.TXT{Hdr: dns.RR_Header{Name: "handled.", Rrtype: dns.TypeTXT, Class: dns.ClassINET}, Txt: []string{"h"}}
 
 func portOf(a net.Addr) int {
 	switch x := a.(type) {
 	case *net.UDPAddr:
+		if x == nil {
+			return -1
+		}
 		return x.Port
 	case *net.TCPAddr:
+		if x == nil {
+			return -1
+		}
 		return x.Port
 	}
 	return -1
 }
 
-func (o *observer) configure(srv *dns.Server, p policySpec) {
-	srv.Handler = dns.HandlerFunc(func(w dns.ResponseWriter, r *dns.Msg) {
+func (o *observer) configure(srv *dns.Server, p policySpec, handler string) {
+	h := dns.HandlerFunc(func(w dns.ResponseWriter, r *dns.Msg) {
+		port, panicked := remotePort(w)
 		o.mu.Lock()
-		o.handled = append(o.handled, handledCall{portOf(w.RemoteAddr()), r})
+		o.handled = append(o.handled, handledCall{port, r})
+		if panicked != "" {
+			o.panics = append(o.panics, "ResponseWriter.RemoteAddr, called by the handler: "+panicked)
+		}
 		o.mu.Unlock()
 		m := new(dns.Msg)
 		m.Id = r.Id
@@ -130,6 +318,19 @@ func (o *observer) configure(srv *dns.Server, p policySpec) {
 		m.Answer = []dns.RR{markerTXT}
 		w.WriteMsg(m)
 	})
+	o.cleanup = func() {}
+	switch handler {
+	case "mux":
+		mux := dns.NewServeMux()
+		mux.Handle(muxZone, h)
+		srv.Handler = mux
+	case "default-mux":
+		// Server.Handler nil: "dns.DefaultServeMux if nil"; checkAdmit removes the pattern when the case is over
+		dns.Handle(muxZone, h)
+		o.cleanup = func() { dns.HandleRemove(muxZone) }
+	default:
+		srv.Handler = h
+	}
 	srv.MsgInvalidFunc = func(m []byte, err error) {
 		c := append([]byte{}, m...)
 		o.mu.Lock()
@@ -195,6 +396,9 @@ func shutdown(srv *dns.Server, done chan error) error {
 type outcome struct {
 	obs     *observer
 	replies map[int][][]byte // port -> datagrams / frames written to it, in order
+	// in-memory transports: the server's SetWriteDeadline calls and the writes that failed on an expired deadline
+	wdlSets, wdlExpired []string
+	rdlExpired          []string // stream connections: reads of the server that ended on a read deadline during a pause of the client
 }
 
 const basePort = 10000
@@ -202,14 +406,35 @@ const basePort = 10000
 func runUDP(c admitCase) (outcome, error) {
 	o := &observer{}
 	pc := newMemPC()
-	srv := &dns.Server{PacketConn: pc, ReadTimeout: time.Hour, UDPSize: c.UDPSize}
-	o.configure(srv, c.Policy)
+	srv := &dns.Server{PacketConn: pc, UDPSize: c.UDPSize}
+	c.Timeouts.apply(srv)
+	o.configure(srv, c.Policy, c.Handler)
+	defer o.cleanup()
 	done, err := serveAndWait(srv)
 	if err != nil {
 		return outcome{}, err
 	}
+	due, settle := 0, true // replies the packets injected so far are expected to get
 	for i, b := range c.Packets {
-		pc.inject(b, &net.UDPAddr{IP: net.IPv4(10, 0, 0, 1), Port: basePort + i})
+		if d := c.pauseBefore(i); d > 0 {
+			// the client is silent for d: everything the server does for the datagrams sent so far
+			// comes first (they are served by goroutines of their own; what can be waited for is that
+			// the socket has been drained and the expected replies have been written - a reply that
+			// is still missing after 3 s is reported below, and not waited for a second time)
+			if !pc.waitDrained(watchdog) {
+				return outcome{}, errors.New("server did not consume every datagram")
+			}
+			if settle {
+				settle = pc.waitSent(due, 3*time.Second)
+			}
+			pc.pause(d)
+		}
+		if c.noAddr(i) {
+			pc.inject(b, nil)
+		} else {
+			pc.inject(b, &net.UDPAddr{IP: net.IPv4(10, 0, 0, 1), Port: basePort + i})
+			due += expectFor(c, b).replies
+		}
 	}
 	if !pc.waitDrained(watchdog) {
 		return outcome{}, errors.New("server did not consume every datagram")
@@ -222,14 +447,17 @@ func runUDP(c admitCase) (outcome, error) {
 		p := portOf(d.addr)
 		out.replies[p] = append(out.replies[p], d.b)
 	}
+	out.wdlSets, out.wdlExpired = pc.deadlineLog()
 	return out, nil
 }
 
 func runTCP(c admitCase) (outcome, error) {
 	o := &observer{}
 	lis := newMemListener()
-	srv := &dns.Server{Listener: lis, ReadTimeout: time.Hour, IdleTimeout: func() time.Duration { return time.Hour }}
-	o.configure(srv, c.Policy)
+	srv := &dns.Server{Listener: lis}
+	c.Timeouts.apply(srv)
+	o.configure(srv, c.Policy, c.Handler)
+	defer o.cleanup()
 	done, err := serveAndWait(srv)
 	if err != nil {
 		return outcome{}, err
@@ -247,34 +475,77 @@ func runTCP(c admitCase) (outcome, error) {
 		err error
 	}
 	res := make([]connRes, nconn)
+	ends := make([]*endpoint, nconn)
 	var wg sync.WaitGroup
 	for k := 0; k < nconn; k++ {
-		cli, srvEnd := lis.dial(40000 + k)
-		srvEnd.in.mu.Lock()
-		srvEnd.in.seg = c.Seg // nothing has been written yet: the server's first Read cannot have returned
-		srvEnd.in.mu.Unlock()
-		var stream []byte
+		// the connection exists before the listener hands it out: its server end keeps its deadlines on a virtual clock
+		cli, srvEnd := newPipe()
+		cli.local, srvEnd.rem = memAddr(40000+k), memAddr(40000+k)
+		srvEnd.makeVirtual()
+		srvEnd.in.seg = c.Seg
+		ends[k] = srvEnd
+		lis.enqueue(srvEnd)
+		// what the client writes: the frames of its packets, a pause in front of some of them
+		type step struct {
+			pause  time.Duration
+			stream []byte
+		}
+		steps := []step{{}}
 		for i, b := range c.Packets {
-			if c.connOf(i) == k {
-				stream = binary.BigEndian.AppendUint16(stream, uint16(len(b)))
-				stream = append(stream, b...)
+			if c.connOf(i) != k {
+				continue
 			}
+			if d := c.pauseBefore(i); d > 0 {
+				steps = append(steps, step{pause: d})
+			}
+			st := &steps[len(steps)-1]
+			st.stream = binary.BigEndian.AppendUint16(st.stream, uint16(len(b)))
+			st.stream = append(st.stream, b...)
 		}
 		wg.Add(1)
-		go func(k int, cli *endpoint, stream []byte) {
+		go func(k int, cli, srvEnd *endpoint) {
 			defer wg.Done()
-			cli.Write(stream)
+			for _, st := range steps {
+				if st.pause > 0 {
+					// the client is silent for a while: the server finishes what it has to do for the
+					// messages sent so far and waits for the next one; then time passes
+					if !srvEnd.waitParked(watchdog) {
+						if !srvEnd.isClosed() {
+							res[k].err = errors.New("the server did not come back to read the next message")
+						}
+						break // closed by the server: whatever is missing is reported by the oracle
+					}
+					srvEnd.pause(st.pause)
+				}
+				cli.Write(st.stream)
+			}
 			cli.closeWrite()
+			if res[k].err != nil {
+				cli.Close()
+				return
+			}
 			cli.SetReadDeadline(time.Now().Add(watchdog))
 			res[k].raw, res[k].err = io.ReadAll(cli)
 			cli.Close()
-		}(k, cli, stream)
+		}(k, cli, srvEnd)
 	}
 	wg.Wait()
 	if err := shutdown(srv, done); err != nil {
 		return outcome{}, err
 	}
 	out := outcome{obs: o, replies: map[int][][]byte{}}
+	for k := range ends {
+		sets, expired, rexp := ends[k].deadlineLog()
+		for _, x := range rexp {
+			out.rdlExpired = append(out.rdlExpired, fmt.Sprintf("conn %d %s", k, x))
+		}
+		for _, x := range sets {
+			out.wdlSets = append(out.wdlSets, fmt.Sprintf("conn %d %s", k, x))
+		}
+		for _, x := range expired {
+			out.wdlExpired = append(out.wdlExpired, fmt.Sprintf("conn %d %s", k, x))
+		}
+	}
 	for k := range res {
 		if res[k].err != nil {
 			return outcome{}, fmt.Errorf("connection %d: the server did not close it after the client's EOF: %v", k, res[k].err)
@@ -331,7 +602,8 @@ func runRealUDP(c admitCase, wantReplies int) (outcome, error) {
 	srv := &dns.Server{PacketConn: pc, ReadTimeout: time.Hour, UDPSize: c.UDPSize}
 	ports := map[int]int{} // client port -> packet index
 	srv.DecorateReader = func(r dns.Reader) dns.Reader { return countingReader{r, &mu, cond, &nread, ports} }
-	o.configure(srv, c.Policy)
+	o.configure(srv, c.Policy, c.Handler)
+	defer o.cleanup()
 	done, err := serveAndWait(srv)
 	if err != nil {
 		pc.Close()
@@ -431,7 +703,8 @@ func runRealTCP(c admitCase) (outcome, error) {
 		return outcome{}, fmt.Errorf("listen: %v", err)
 	}
 	srv := &dns.Server{Listener: lis, ReadTimeout: time.Hour, IdleTimeout: func() time.Duration { return time.Hour }}
-	o.configure(srv, c.Policy)
+	o.configure(srv, c.Policy, c.Handler)
+	defer o.cleanup()
 	done, err := serveAndWait(srv)
 	if err != nil {
 		lis.Close()
@@ -551,11 +824,56 @@ func expectFor(c admitCase, b []byte) expect {
 		m := new(dns.Msg)
 		if err := m.Unpack(b); err == nil {
 			e.disp, e.ref, e.replies = "handler", m, 1
+			if c.Handler == "mux" || c.Handler == "default-mux" {
+				// one registered pattern: the handler gets the requests whose first question name lies
+				// in that zone (label boundaries, letter case ignored), everything else is refused
+				zone, _ := lowerLabels(muxZone)
+				e.disp = "refused"
+				if len(m.Question) > 0 {
+					q, err := lowerLabels(m.Question[0].Name)
+					switch {
+					case err != nil:
+						e.disp = "handler-or-refused" // a spelling the reference does not read: not judged
+					case isSuffix(zone, q):
+						e.disp = "handler"
+					}
+				}
+			}
 		} else {
 			e.disp, e.replies = "invalid+formerr", 1
 		}
 	}
 	return e
+}
+
+// checkRefusedReply: the reply the library builds when no pattern matches - REFUSED with the
+// request's ID, QR set, the request's opcode, RD and CD of a query, its first question, no records.
+func checkRefusedReply(e expect, r []byte, what string) error {
+	if len(r) < 12 {
+		return pbt.Errf("%s: reply of %d octets", what, len(r))
+	}
+	h := parseHdr(r)
+	if h.id != e.h.id || !h.qr() || h.rcode() != dns.RcodeRefused || h.opcode() != e.h.opcode() {
+		return pbt.Errf("%s: expected REFUSED: reply id=%d qr=%v rcode=%d opcode=%d, request id=%d opcode=%d", what, h.id, h.qr(), h.rcode(), h.opcode(), e.h.id, e.h.opcode())
+	}
+	if e.h.opcode() == dns.OpcodeQuery && (h.bits&0x0110) != (e.h.bits&0x0110) {
+		return pbt.Errf("%s: REFUSED reply to a query has RD/CD bits %04x, the request %04x", what, h.bits&0x0110, e.h.bits&0x0110)
+	}
+	if h.an != 0 || h.ns != 0 || h.ar != 0 {
+		return pbt.Errf("%s: REFUSED reply carries records: an=%d ns=%d ar=%d (%s)", what, h.an, h.ns, h.ar, hex.EncodeToString(r))
+	}
+	m := new(dns.Msg)
+	if err := m.Unpack(r); err != nil {
+		return pbt.Errf("%s: REFUSED reply does not decode: %v (%s)", what, err, hex.EncodeToString(r))
+	}
+	if len(e.ref.Question) == 0 {
+		if len(m.Question) != 0 {
+			return pbt.Errf("%s: REFUSED reply has a question although the request had none", what)
+		}
+	} else if len(m.Question) != 1 || m.Question[0] != e.ref.Question[0] {
+		return pbt.Errf("%s: REFUSED reply question %v, the request's first question %v", what, m.Question, e.ref.Question[0])
+	}
+	return nil
 }
 
 func checkLibReply(e expect, r []byte, what string) error {
@@ -621,7 +939,7 @@ func sortedHex(bs [][]byte) []string {
 }
 
 func checkAdmit(c admitCase) error {
-	if len(c.Packets) == 0 || len(c.Packets) > 64 || !validTransport[c.Transport] {
+	if len(c.Packets) == 0 || len(c.Packets) > 64 || !validTransport[c.Transport] || !c.wellFormed() {
 		pbt.Note(nil, false, "invalid-case")
 		return nil
 	}
@@ -649,6 +967,16 @@ func checkAdmit(c admitCase) error {
 		exp[i] = expectFor(c, b)
 		if len(exp[i].octets) >= 12 {
 			nontrivial = true
+		}
+	}
+	classes = append(classes, "handler="+map[string]string{"": "func", "mux": "mux", "default-mux": "default-mux"}[c.Handler])
+	if c.inMemory() {
+		classes = append(classes, c.timeClasses(exp)...)
+	}
+	for i := range exp {
+		if exp[i].disp == "handler-or-refused" {
+			pbt.Note(kb, false, "not-judged:question-name-spelling")
+			return nil
 		}
 	}
 	if !quietStats {
@@ -682,7 +1010,27 @@ func checkAdmit(c admitCase) error {
 	if err != nil {
 		return err
 	}
+	if err := judge(c, exp, out); err != nil {
+		if len(out.wdlExpired) > 0 {
+			// the reason is on record: the server wrote after a write deadline it had set earlier had passed
+			return pbt.Errf("%v\n the client had been silent for a while (less than the read/idle timeout in force) and %d write(s) of the server failed on a stale write deadline: %v; SetWriteDeadline calls: %v",
+				err, len(out.wdlExpired), out.wdlExpired[0], out.wdlSets)
+		}
+		if len(out.rdlExpired) > 0 {
+			return pbt.Errf("%v\n the client had been silent for a while (at most half of the ReadTimeout before the first message of a connection, of the idle timeout later; read %v, idle %v) and the server gave the connection up: %v",
+				err, c.Timeouts.read(), c.Timeouts.idle(), out.rdlExpired)
+		}
+		return err
+	}
+	return nil
+}
+
+// judge compares what the server did with the expected disposition of every packet.
+func judge(c admitCase, exp []expect, out outcome) error {
 	o := out.obs
+	if len(o.panics) > 0 {
+		return pbt.Errf("a method of the server's ResponseWriter panicked (%d times): %s", len(o.panics), o.panics[0])
+	}
 
 	// MsgInvalidFunc: exactly the packets that are too short or accepted-but-undecodable, with their octets
 	var wantInvalid [][]byte
@@ -722,8 +1070,15 @@ func checkAdmit(c admitCase) error {
 		for _, h := range o.handled {
 			byPort[h.port] = append(byPort[h.port], h.req)
 		}
+		var anon []expect // packets from senders without an address: told apart by their content only
 		for i, e := range exp {
 			what := fmt.Sprintf("udp packet %d (%s, expected %s)", i, hex.EncodeToString(e.octets), e.disp)
+			if c.Transport == "udp" && c.noAddr(i) {
+				if e.disp == "handler" {
+					anon = append(anon, e)
+				}
+				continue
+			}
 			port := basePort + i
 			hs := byPort[port]
 			delete(byPort, port)
@@ -731,6 +1086,26 @@ func checkAdmit(c admitCase) error {
 			delete(out.replies, port)
 			if err := checkOne(e, hs, rs, what); err != nil {
 				return err
+			}
+		}
+		// the handler is called exactly once for each of them as well (RemoteAddr is nil: "port" -1);
+		// a reply cannot be addressed and is not expected
+		got := byPort[-1]
+		delete(byPort, -1)
+		if len(got) != len(anon) {
+			return pbt.Errf("datagrams from senders without an address: handler called %d times, expected %d", len(got), len(anon))
+		}
+		for _, e := range anon {
+			found := false
+			for j, g := range got {
+				if sameMsg(g, e.ref) {
+					got = append(got[:j:j], got[j+1:]...)
+					found = true
+					break
+				}
+			}
+			if !found {
+				return pbt.Errf("datagram from a sender without an address (%s): no handler call with the decoded request %v", hex.EncodeToString(e.octets), e.ref)
 			}
 		}
 		if len(byPort) != 0 || len(out.replies) != 0 {
@@ -816,6 +1191,9 @@ func checkOne(e expect, hs []*dns.Msg, rs [][]byte, what string) error {
 			return pbt.Errf("%s: handler got a request that differs from the decoded packet:\n got  %v\n want %v", what, hs[0], e.ref)
 		}
 		return checkHandlerReply(e, rs[0], what)
+	}
+	if e.disp == "refused" {
+		return checkRefusedReply(e, rs[0], what)
 	}
 	if e.replies == 1 {
 		return checkLibReply(e, rs[0], what)
@@ -994,7 +1372,67 @@ func genAdmit(t *rapid.T) admitCase {
 		// the stream reaches the server in pieces: every Read returns only a few octets
 		c.Seg = rapid.SliceOfN(rapid.SampledFrom([]int{1, 1, 1, 2, 3, 5, 12, 13, 64, 700}), 1, 6).Draw(t, "seg")
 	}
+	c.Handler = rapid.SampledFrom([]string{"", "", "", "mux", "mux", "default-mux"}).Draw(t, "handler")
+	if c.inMemory() {
+		genTime(t, &c)
+	}
+	if c.Transport == "udp" && rapid.IntRange(0, 7).Draw(t, "anonymous") == 0 {
+		// some senders have no address (unbound unixgram clients): ReadFrom returns a nil net.Addr
+		if pbt.Known(knownNoAddr) {
+			pbt.Excluded(knownNoAddr)
+		} else {
+			for i := range c.Packets {
+				if i == 0 || rapid.IntRange(0, 2).Draw(t, "noaddr") == 0 {
+					c.NoAddr = append(c.NoAddr, i)
+				}
+			}
+		}
+	}
 	return c
+}
+
+const knownNoAddr = "udp-sender-without-address-remoteaddr-panics"
+
+// genTime: the server's timeout configuration (zero values included) and the pauses of the client.
+// A pause on a stream connection stays within half of the read timeout in force at that point (the
+// ReadTimeout in front of the first message of a connection, the idle timeout afterwards): such a
+// client is entitled to everything the property promises. Pauses are preferably a little longer
+// than the write timeout, the other documented per-connection time limit.
+func genTime(t *rapid.T, c *admitCase) {
+	c.Timeouts = timeoutSpec{
+		ReadMs:  rapid.SampledFrom([]int64{0, 0, 50, 3000, 3600_000}).Draw(t, "readTimeout"),
+		WriteMs: rapid.SampledFrom([]int64{0, 0, 50, 1000, 3600_000}).Draw(t, "writeTimeout"),
+		IdleMs:  rapid.SampledFrom([]int64{0, 0, 4000, 60_000, 172_800_000}).Draw(t, "idleTimeout"),
+	}
+	if rapid.IntRange(0, 1).Draw(t, "pausing") == 0 {
+		return
+	}
+	n := rapid.IntRange(1, 2).Draw(t, "npauses")
+	for k := 0; k < n; k++ {
+		i := rapid.IntRange(0, len(c.Packets)-1).Draw(t, "pauseBefore")
+		if k == 0 && len(c.Packets) > 1 && rapid.Bool().Draw(t, "notFirst") {
+			i = rapid.IntRange(1, len(c.Packets)-1).Draw(t, "pauseBeforeLater")
+		}
+		room := 1000 * time.Hour
+		if c.Transport == "tcp" {
+			limit := c.Timeouts.idle()
+			if c.firstOnConn(i) {
+				limit = c.Timeouts.read()
+			}
+			room = maxPause(limit) - c.pauseBefore(i)
+		}
+		w := c.Timeouts.write()
+		var fit []int64
+		for _, d := range []time.Duration{w + 300*time.Millisecond, w + 300*time.Millisecond, 2 * w, w / 2, time.Millisecond, room} {
+			if d > 0 && d <= room {
+				fit = append(fit, d.Milliseconds())
+			}
+		}
+		if len(fit) == 0 {
+			continue
+		}
+		c.Pauses = append(c.Pauses, pauseSpec{Before: i, Ms: rapid.SampledFrom(fit).Draw(t, "pause")})
+	}
 }
 
 // ---------------------------------------------------------------------------------------------
@@ -1111,7 +1549,52 @@ func eachSplit(emit func(admitCase)) {
 	}
 }
 
+// eachSilence: a client that stays silent for a little longer than the server's write timeout (and far
+// shorter than the idle timeout) in the middle of a conversation: the messages after the silence get
+// the same treatment as those before it. Configurations: the zero values and explicit ones.
+func eachSilence(emit func(admitCase)) {
+	q := fixedQueries()
+	other := new(dns.Msg)
+	other.SetQuestion("nomatch.test.", dns.TypeA)
+	other.Id, other.CheckingDisabled = 0x2003, true
+	ob, err := other.Pack()
+	if err != nil {
+		panic(err)
+	}
+	packets := [][]byte{
+		q[0],
+		{0x20, 0x01, 0x78, 0x00, 0, 0, 0, 0, 0, 0, 0, 0}, // opcode 15
+		{0x20, 0x02, 0x00, 0x00, 0, 2, 0, 0, 0, 0, 0, 0}, // QDCOUNT 2
+		{0x20, 0x04, 0x80, 0x00, 0, 1, 0, 0, 0, 0, 0, 0}, // QR set
+		ob, // no pattern matches
+		q[1],
+	}
+	for _, tr := range []string{"tcp", "udp"} {
+		for _, h := range []string{"", "mux"} {
+			for _, w := range []int64{0, 50, 3600_000} {
+				for _, idle := range []int64{0, 172_800_000} {
+					for _, before := range []int{1, 2, 4} {
+						ts := timeoutSpec{WriteMs: w, IdleMs: idle}
+						d := ts.write() + 300*time.Millisecond
+						if tr == "tcp" && d > maxPause(ts.idle()) {
+							continue
+						}
+						emit(admitCase{Transport: tr, Policy: policySpec{Kind: "default"}, Packets: packets, Handler: h, Timeouts: ts,
+							Pauses: []pauseSpec{{Before: before, Ms: d.Milliseconds()}}})
+					}
+				}
+			}
+		}
+	}
+}
+
 func init() {
+	pbt.RegisterEnum(pbt.Enum[admitCase]{Name: "silence-matrix", Exhaustive: true, Each: eachSilence, Check: checkAdmit})
+	// a datagram whose sender has no address (net.UnixConn.ReadFrom returns a nil net.Addr for an
+	// unbound unixgram client) reaches a handler that asks for the client's address
+	pbt.Probe(knownNoAddr, func() error {
+		return checkAdmit(admitCase{Transport: "udp", Policy: policySpec{Kind: "default"}, Packets: [][]byte{fixedQueries()[0]}, NoAddr: []int{0}})
+	})
 	pbt.RegisterEnum(pbt.Enum[admitCase]{Name: "tcp-every-split", Exhaustive: true, Each: eachSplit, Check: checkAdmit})
 	pbt.Register(pbt.Sub[admitCase]{Name: "admission", Weight: 20, Gen: genAdmit, Check: checkAdmit})
 	pbt.RegisterEnum(pbt.Enum[admitCase]{Name: "header-matrix", Exhaustive: true, Each: eachHeader, Check: checkAdmit})
